@@ -35,6 +35,12 @@ def run(db, rep, tier):
     rep.rule("R5-latest-key", "session keys learned from a new handshake (or supplied directly) replace the stored ones for that pair", 2)
     r5(db, rep)
     r4(db, rep)
+    rep.rule("R6-key-buffer", "WEP: the scratch key buffer never shrinks below 3 + the longest registered key (decrypt copies IV + key into it "
+                              "without a size test of its own)", 1)
+    r6(db, rep)
+    rep.rule("R7-consume-handshake", "a completed handshake taken from the capturer is always cleared afterwards, whether or not keys could be "
+                                     "derived from it", 1)
+    r7(db, rep)
     rep.explanation = ("Also decides the step table of RSNHandshakeCapturer::do_insert (R4: append iff next expected, keep state on a "
                        "retransmission of the last stored message). Decides two clauses of C09: 'frames whose integrity check fails are never reported as decrypted' "
                        "(guard dominance on every non-null return) and 'decrypting truncated/corrupted/hostile protected "
@@ -302,3 +308,109 @@ def r5(db, rep):
                                   "under the current key are not decrypted and frames under the superseded key still are" % kind)
     if n < 2:
         rep.analysis_broken("only %d store(s) into WPA2Decrypter::keys_ found" % n)
+
+
+def r6(db, rep):
+    """class invariant of WEPDecrypter: key_buffer_.size() >= 3 + len(p) for every registered password p"""
+    REC = "Tins::Crypto::WEPDecrypter"
+    n = 0
+    dec = [f for f in db.functions.values() if f.get("rec") == REC and f["qual"].endswith("::decrypt") and f.get("body") and
+           any(x["k"] == "CallExpr" and x.get("cname") == "copy" for x in facts.fn_nodes(f))]
+    if not dec:
+        rep.analysis_broken("WEPDecrypter::decrypt(RawPDU&, const string&) with its copy into key_buffer_ was not found")
+        return
+
+    def kb_size(e):
+        e0 = facts.strip_all(e)
+        return e0["k"] == "CXXMemberCallExpr" and e0.get("cname") == "size" and "key_buffer_" in facts.expr_str(e0)
+
+    def needed(e, pw):
+        """3 + pw.size() in any association"""
+        t = facts.expr_str(e).replace(" ", "").replace("(", "").replace(")", "").replace("this->", "")
+        return t in ("3+%s.size" % pw, "%s.size+3" % pw)
+    # a local size test in decrypt makes the invariant unnecessary
+    d = dec[0]
+    local = [x for x in facts.fn_nodes(d) if x["k"] == "CXXMemberCallExpr" and x.get("cname") == "resize" and "key_buffer_" in facts.expr_str(x)]
+    for f in sorted(db.functions.values(), key=lambda x: x["id"]):
+        if f.get("rec") != REC or not f.get("body") or f.get("kind") in ("ctor", "dtor"):
+            continue
+        stores = [x for x in facts.fn_nodes(f) if x["k"] == "CXXOperatorCallExpr" and x.get("cname") == "operator=" and
+                  "passwords_" in facts.expr_str(x["c"][1])]
+        stores += [x for x in facts.fn_nodes(f) if x["k"] == "CXXMemberCallExpr" and x.get("cname") in ("insert", "emplace") and
+                   "passwords_" in facts.expr_str(x["c"][0])]
+        if not stores:
+            continue
+        pwp = [p_ for p_ in f["params"] if "password" in p_["name"]]
+        pw = pwp[0]["name"] if pwp else "password"
+        g = cfg.FnCFG(f)
+        for st in stores:
+            n += 1
+            key = "%s:key_buffer_#%d" % (f["qual"].split("::")[-1], n)
+            good = None
+            for x in facts.fn_nodes(f):
+                if x["k"] == "CXXMemberCallExpr" and x.get("cname") == "resize" and "key_buffer_" in facts.expr_str(x) and len(x["c"]) >= 2:
+                    a = facts.strip_all(x["c"][1])
+                    if a["k"] == "CallExpr" and a.get("cname") == "max" and len(a["c"]) == 3:
+                        u, w = a["c"][1], a["c"][2]
+                        if (kb_size(u) and needed(w, pw)) or (kb_size(w) and needed(u, pw)):
+                            if g.reaches_exit_avoiding(g.pos(st), [g.pos(x)], normal_only=True) is None or \
+                                    g.reached_from_entry_avoiding(g.pos(st), [g.pos(x)]) is None:
+                                good = "resize(max(3 + %s.size(), key_buffer_.size()))" % pw
+                    elif needed(a, pw):
+                        for op, l, r in cond.guards_facts(g, g.pos(x)):
+                            if r is not None and ((op == "<" and kb_size(l) and needed(r, pw)) or (op == ">" and kb_size(r) and needed(l, pw))):
+                                good = "resize(3 + %s.size()) only when the buffer is smaller" % pw
+            if good or local:
+                rep.ok("R6-key-buffer", key, facts.loc(f, st), good or "decrypt() sizes the buffer itself")
+            else:
+                rep.violation("R6-key-buffer", key, facts.loc(f, st),
+                              "after this registration key_buffer_ is not guaranteed to hold 3 + the longest registered key (no grow-only resize "
+                              "on this path): registering a shorter key after a longer one shrinks it, and decrypt() then copies the longer key "
+                              "past its end")
+    if n < 1:
+        rep.analysis_broken("no registration of a WEP password found")
+
+
+def r7(db, rep):
+    fs = db.fns_named("Tins::Crypto::WPA2Decrypter::decrypt")
+    if not fs:
+        rep.analysis_broken("WPA2Decrypter::decrypt vanished")
+        return
+    f = fs[0]
+    g = cfg.FnCFG(f)
+    key = "WPA2Decrypter::decrypt:handshake-consumed"
+    uses = [x for x in facts.fn_nodes(f) if x["k"] == "CXXMemberCallExpr" and x.get("cname") in ("front", "back", "begin", "operator[]") and
+            "handshakes()" in facts.expr_str(x)]
+    if not uses:
+        rep.analysis_broken("WPA2Decrypter::decrypt: use of capturer_.handshakes() not found")
+        return
+
+    def must_clear(fn_, depth=0):
+        """does every normal path through fn_ call clear_handshakes()?"""
+        if fn_ is None or not fn_.get("body") or depth > 2:
+            return False
+        g2 = cfg.FnCFG(fn_)
+        pos = []
+        for x in facts.fn_nodes(fn_):
+            if x["k"] == "CXXMemberCallExpr" and (x.get("cname") == "clear_handshakes" or
+                                                  (x.get("callee") and x.get("cname") != "clear_handshakes" and depth < 2 and
+                                                   "Crypto" in (x.get("callee") or "") and must_clear(db.fn(x["callee"]), depth + 1))):
+                q = g2.pos(x)
+                if q:
+                    pos.append(q)
+        return bool(pos) and g2.reaches_exit_avoiding((g2.entry, -1), pos, normal_only=True) is None
+    clears = []
+    for x in facts.fn_nodes(f):
+        if x["k"] == "CXXMemberCallExpr":
+            if x.get("cname") == "clear_handshakes":
+                clears.append(g.pos(x))
+            elif x.get("callee") and "Crypto" in x["callee"] and must_clear(db.fn(x["callee"])):
+                clears.append(g.pos(x))
+    clears = [c for c in clears if c]
+    bad = [u for u in uses if g.reaches_exit_avoiding(g.pos(u), clears, normal_only=True) is not None]
+    if bad or not clears:
+        rep.violation("R7-consume-handshake", key, facts.loc(f, (bad or uses)[0]),
+                      "a completed handshake is taken from the capturer but a path to the exit does not clear it: it stays at the front of "
+                      "the list, every later completed handshake is paired with this stale one, and no further keys are learned")
+    else:
+        rep.ok("R7-consume-handshake", key, facts.loc(f, uses[0]), "clear_handshakes() on every path after the handshake is used")
